@@ -349,6 +349,7 @@ pub fn finish(meta: &CheckMeta, tier: &str, seed: u64, merged: ShardResult, t0: 
     let root = verif_root();
     let known = known_findings();
     let mut new_violations = 0;
+    let mut engine_failures = 0;
     let mut known_hits: BTreeMap<String, String> = BTreeMap::new();
     let replay_dir = root.join("replays").join(meta.id);
     let mut lines = vec![];
@@ -358,6 +359,8 @@ pub fn finish(meta: &CheckMeta, tier: &str, seed: u64, merged: ShardResult, t0: 
             known_hits.entry(fp.clone()).or_insert(what.clone());
             continue;
         }
+        // a harness that lost control of its subject (fingerprints ENGINE-*) is a machinery failure, never a verdict
+        if v.fingerprint.starts_with("ENGINE-") { engine_failures += 1; println!("ENGINE-ERROR [{}] {}", v.fingerprint, v.what); continue; }
         new_violations += 1;
         std::fs::create_dir_all(&replay_dir).unwrap();
         let body = json!({"property": meta.id, "fingerprint": v.fingerprint, "what": v.what, "case": v.case});
@@ -405,7 +408,7 @@ pub fn finish(meta: &CheckMeta, tier: &str, seed: u64, merged: ShardResult, t0: 
     );
     for l in &lines { println!("{}", l); }
     let _ = std::io::stdout().flush();
-    if new_violations > 0 { 1 } else { 0 }
+    if new_violations > 0 { 1 } else if engine_failures > 0 { 2 } else { 0 }
 }
 
 pub fn worker_main(ctx: &Ctx, f: impl FnOnce(&Ctx, &mut ShardResult)) {
